@@ -413,6 +413,12 @@ func (l *layoutContext) finishBlockFormattingContext(rootBox_ Box) {
 		}
 		rootBox.Height = rootBox.Height.V() + maxShapeBottom - boxBottom
 	}
+	l.leaveBlockFormattingContext()
+}
+
+// leaveBlockFormattingContext goes back to the enclosing block formatting context:
+// it is the counterpart of createBlockFormattingContext for a box that is not rendered.
+func (l *layoutContext) leaveBlockFormattingContext() {
 	l.excludedShapesLists = l.excludedShapesLists[:len(l.excludedShapesLists)-1]
 	if L := len(l.excludedShapesLists); L != 0 {
 		l.excludedShapes = &l.excludedShapesLists[L-1]
